@@ -205,3 +205,118 @@ prop(
     text="Caps raised/lowered between trades, whitelist flips, boundary config values (0, 1, 1+1 raw, crossing maintenance/initial).",
     note="open interest is the engine-wide figure the cap is compared with",
 )
+
+
+def run_c19(prop_id, tier, seed, spec, known, t0):
+    """W-INT: perpmon intlog | c19_check.py per shard; merged here."""
+    import json, os, subprocess, time
+    from orchestrator import BIN, SHARDS, REPLAYS, ROOT, env, match_known, write_evidence
+    os.makedirs(SHARDS, exist_ok=True)
+    nsh = min(16, os.cpu_count() or 4)
+    count = 3000 if tier == "quick" else 60000
+    checker = os.path.join(ROOT, "orchestrator", "c19_check.py")
+    procs = []
+    for i in range(nsh):
+        out = os.path.join(SHARDS, "C19-%s-%d.json" % (tier, i))
+        if os.path.exists(out):
+            os.remove(out)
+        cmd = "%s intlog --seed %d --shard %d --budget %d | python3 %s %s" % (BIN, seed, i, count, checker, out)
+        procs.append((out, subprocess.Popen(["bash", "-c", "set -o pipefail; " + cmd], env=env())))
+    notes, results = [], []
+    deadline = time.time() + (900 if tier == "quick" else 7200)
+    for out, p in procs:
+        try:
+            p.wait(timeout=max(1, deadline - time.time()))
+        except subprocess.TimeoutExpired:
+            p.kill()
+            notes.append("shard watchdog fired (inconclusive)")
+            continue
+        if p.returncode != 0 or not os.path.exists(out):
+            notes.append("shard failed with exit %s (inconclusive)" % p.returncode)
+            continue
+        results.append(json.load(open(out)))
+    m = {"histories": 0, "steps": 0, "failed_tx": 0, "panics_as_reverts": 0, "evaluations": 0, "distinct": set(), "counters": {}, "samples": [],
+         "violations": [], "inconclusive": [], "kinds": {}, "configs": {}, "workloads": {"W-INT": len(results)}, "errors": {}, "extra": [], "wall_s": 0}
+    records = boundary = 0
+    byk = {}
+    for r in results:
+        m["evaluations"] += r["evaluations"]
+        m["distinct"].update(r["distinct"])
+        records += r["records"]
+        boundary += r["boundary_records"]
+        for k, v in r["counters"].items():
+            m["counters"][k] = m["counters"].get(k, 0) + v
+        if len(m["samples"]) < 6:
+            m["samples"].extend(r["samples"][:2])
+        for v in r["violations"]:
+            e = byk.get(v["signature"])
+            if e:
+                e["count"] += v["count"]
+            else:
+                byk[v["signature"]] = v
+    m["violations"] = list(byk.values())
+    m["steps"] = records
+    m["counters"]["operand-pairs"] = records
+    m["counters"]["boundary-pairs(exhaustive)"] = boundary
+    open_sigs, listed, unlisted = match_known(prop_id, m["violations"], known)
+    listed_counts = {sig: sum(v["count"] for v in vs) for sig, vs in listed.items()}
+    for k in known:
+        if k["property"] == prop_id and k.get("status") == "open":
+            print("KNOWN-FINDING: property=%s %s [signature %s; reproduced %d times in this run]" % (prop_id, k["what"], k["signature"], listed_counts.get(k["signature"], 0)))
+    rc = 0
+    if unlisted:
+        os.makedirs(REPLAYS, exist_ok=True)
+        for idx, (sig, vs) in enumerate(sorted(unlisted.items())):
+            path = os.path.join(REPLAYS, "C19-%s-%d.json" % (seed, idx))
+            json.dump(vs[0]["replay"], open(path, "w"))
+            print("VIOLATION property=C19 replay=%s rule=%s signature=%s count=%d" % (path, vs[0]["rule"], sig, vs[0]["count"]))
+            print("  detail: %s" % vs[0]["detail"][:400])
+        rc = 1
+    elif not results or records == 0 or boundary == 0:
+        rc = 2
+    wall = time.time() - t0
+    write_evidence(prop_id, tier, seed, m, spec, len(unlisted), notes, wall, listed_counts, {"exhaustive": True, "operand_pairs": records, "boundary_pairs": boundary})
+    print("%s property=C19 tier=%s seed=%s operand_pairs=%d boundary_pairs=%d evaluations=%d distinct=%d unlisted_violations=%d wall=%.1fs"
+          % ({0: "HELD", 1: "VIOLATED", 2: "INCONCLUSIVE"}[rc], tier, seed, records, boundary, m["evaluations"], len(m["distinct"]), len(unlisted), wall))
+    for n in notes:
+        print("  note: %s" % n)
+    return rc
+
+
+prop(
+    "C19",
+    level="exploration",
+    technique="offline log checker: every outcome of the real Integer API on recorded operand pairs re-derived with Python big integers (independent language, arbitrary precision)",
+    design_ref="DESIGN.md §4 C19",
+    rule="evaluations = individual outcome checks (operator, assignment form, checked form, unary, comparison chain, string/serde round trip, zero/sign consistency of every operand and result) over operand pairs: the boundary set "
+         "(0, small, powers of two +-1 around 2^31..2^127, 2^64+-1, powers of ten, 2^128-2, 2^128-1; 43 magnitudes x both signs) is enumerated exhaustively (exhaustive=true refers to that finite set only), plus structured random pairs "
+         "(equal magnitudes, off-by-one, exact quotients, complements to 2^128-1). distinct = (operation, sign of a, sign of b, |a| vs |b|, overflow / zero / ok).",
+    exhaustive=True,
+    runner=run_c19,
+    text="Every operation of the public API compared with mathematical integers on an exhaustively enumerated boundary set and random structured pairs.",
+    note="unchecked operators are allowed to panic exactly when the result is not representable; their wrapped results are not asserted",
+)
+prop(
+    "C09",
+    level="exploration",
+    technique="exhaustive access-control matrix by dry-run: every execute variant x sender kind x phase on live state, each cell required to be non-vacuous (same payload accepted for the role holder)",
+    design_ref="DESIGN.md §4 C09",
+    rule="evaluations = matrix cells executed (dry runs with checkpoint/restore on the same state). For every execute-message variant of the vAMM, engine (privileged ones), insurance fund, fee pool and the repository's price feed, with a payload that the role holder's call accepts on that state, "
+         "every other sender kind (each role holder, every contract address, trader, liquidator, stranger, former holders) must be refused with the whole storage digest unchanged; phases: before any transfer, after each of two chained transfers of every role, after re-pointing the vAMM's engine / insurance fund. "
+         "The role holder being refused with an authorisation error is a violation. exhaustive=true: all variants x all sender kinds x all phases are enumerated for each sampled deployment/state; payloads and states are sampled. distinct = (contract, variant, sender kind, phase, outcome).",
+    exhaustive=True,
+    essential=["matrix-cells", "role-transfer-rounds", "cell:vamm:swap_input", "cell:vamm:set_open", "cell:engine:set_pause", "cell:insurance:withdraw", "cell:insurance:shutdown_vamms", "cell:fee_pool:send_token", "cell:pricefeed:append_price", "cell:engine:update_config", "cell:vamm:settle_funding"],
+    text="Complete variant x sender matrix on states with live positions, before and after chained role transfers.",
+    note="self-calls (sender = the contract called) are excluded: no contract in the repository messages itself and a contract cannot originate a transaction",
+)
+prop(
+    "C13",
+    level="exploration",
+    technique="differential twin monitor: cw20 and native deployments driven in lock-step, native call attaching exactly what the cw20 twin pulled; first divergence reported",
+    design_ref="DESIGN.md §4 C13",
+    rule="evaluations = engine operations executed on both twins (identical parameters, cw20 6dp vs native uwasm). After each, outcome (ok/err), every position field, vAMM state, engine State and the net balance change of every party (each trader, liquidator, vault, insurance fund, fee pool) must agree. "
+         "distinct = (operation, cw20 reply path, fees configured, something pulled from the caller, vault shortfall, outcome).",
+    essential=["twin:open:update_position", "twin:close:close_position", "twin:open:reverse_position+update_position", "twin:liquidate:liquidation"],
+    text="Lock-step differential execution over random histories with and without fees, reversals of every size class and vault shortfalls.",
+    note="a history stops at its first divergence (the twins are no longer comparable afterwards)",
+)
